@@ -7,6 +7,7 @@ from typing import TYPE_CHECKING, ClassVar
 from mypy_extensions import mypyc_attr
 
 from pyjelly import jelly
+from pyjelly.errors import JellyConformanceError
 from pyjelly.options import LookupPreset, StreamParameters, StreamTypes
 from pyjelly.serialize.encode import (
     Slot,
@@ -61,6 +62,7 @@ class Stream:
         self.flow = flow
         self.repeated_terms = [None] * len(Slot)
         self.enrolled = False
+        self.failed = False
         self.stream_types = StreamTypes(
             physical_type=self.physical_type,
             logical_type=self.flow.logical_type,
@@ -95,6 +97,17 @@ class Stream:
             flow = ManualFrameFlow(logical_type=self.options.logical_type)
         return flow
 
+    def ensure_usable(self) -> None:
+        """
+        Refuse to continue a stream in which encoding of a row has failed.
+
+        A failed row leaves lookup tables and repeated terms out of sync with
+        what was actually emitted, so anything encoded afterwards would be corrupt.
+        """
+        if self.failed:
+            msg = "the stream cannot be used after encoding of a statement failed"
+            raise JellyConformanceError(msg)
+
     def enroll(self) -> None:
         """Initialize start of the stream."""
         if not self.enrolled:
@@ -120,11 +133,16 @@ class Stream:
             iri (str): namespace iri
 
         """
-        rows = encode_namespace_declaration(
-            name=name,
-            value=iri,
-            term_encoder=self.encoder,
-        )
+        self.ensure_usable()
+        try:
+            rows = encode_namespace_declaration(
+                name=name,
+                value=iri,
+                term_encoder=self.encoder,
+            )
+        except BaseException:
+            self.failed = True
+            raise
         self.flow.extend(rows)
 
     @classmethod
@@ -206,11 +224,16 @@ class TripleStream(Stream):
                 flow supports frames slicing and current flow is full
 
         """
-        new_rows = encode_triple(
-            terms,
-            term_encoder=self.encoder,
-            repeated_terms=self.repeated_terms,
-        )
+        self.ensure_usable()
+        try:
+            new_rows = encode_triple(
+                terms,
+                term_encoder=self.encoder,
+                repeated_terms=self.repeated_terms,
+            )
+        except BaseException:
+            self.failed = True
+            raise
         self.flow.extend(new_rows)
         return self.flow.frame_from_bounds()
 
@@ -231,11 +254,16 @@ class QuadStream(Stream):
                 flow supports frames slicing and current flow is full
 
         """
-        new_rows = encode_quad(
-            terms,
-            term_encoder=self.encoder,
-            repeated_terms=self.repeated_terms,
-        )
+        self.ensure_usable()
+        try:
+            new_rows = encode_quad(
+                terms,
+                term_encoder=self.encoder,
+                repeated_terms=self.repeated_terms,
+            )
+        except BaseException:
+            self.failed = True
+            raise
         self.flow.extend(new_rows)
         return self.flow.frame_from_bounds()
 
@@ -260,15 +288,21 @@ class GraphStream(TripleStream):
             Generator[jelly.RdfStreamFrame]: jelly frames.
 
         """
-        graph_start = jelly.RdfGraphStart()
-        self.encoder.start_row()
-        [*graph_rows] = self.encoder.encode_graph(graph_id, graph_start)
-        start_row = jelly.RdfStreamRow(graph_start=graph_start)
-        graph_rows.append(start_row)
-        self.flow.extend(graph_rows)
-        for triple in graph:
-            if frame := self.triple(triple):  # has frame slicing inside
-                yield frame
+        self.ensure_usable()
+        try:
+            graph_start = jelly.RdfGraphStart()
+            self.encoder.start_row()
+            [*graph_rows] = self.encoder.encode_graph(graph_id, graph_start)
+            start_row = jelly.RdfStreamRow(graph_start=graph_start)
+            graph_rows.append(start_row)
+            self.flow.extend(graph_rows)
+            for triple in graph:
+                if frame := self.triple(triple):  # has frame slicing inside
+                    yield frame
+        except BaseException:
+            # the graph was not (or not completely) written and is left open
+            self.failed = True
+            raise
         end_row = jelly.RdfStreamRow(graph_end=jelly.RdfGraphEnd())
         self.flow.append(end_row)
         if frame := self.flow.frame_from_bounds():
